@@ -250,6 +250,10 @@ def write_events(hfn):
                 cs.append(a['c'])
             elif a.get('k') == 'match' and not a.get('src', '').startswith('TryDesugar'):
                 cs.append(a['scrut'])
+            elif a.get('k') == 'loop':
+                cs.append({'k': 'loop-marker', 'ln': a.get('ln')})
+            elif a.get('k') == 'closure':
+                cs.append({'k': 'closure-marker', 'ln': a.get('ln')})
         return cs
 
     def visit(e, anc):
@@ -283,4 +287,36 @@ def lit_bytes(e):
             return bytes([e['v']])
         if e.get('t') == 'str':
             return e['v'].encode()
+    return None
+
+
+def flat_write_events(facts, fn, conds=(), seen=None, depth=0):
+    """write events of `fn` with the events of the local `encode::*` helpers it calls spliced in
+    (depth-first, in source order); each event carries the accumulated conditions/loops and the
+    function it textually belongs to"""
+    seen = seen or set()
+    out = []
+    hfn = facts.hir.get(fn)
+    if hfn is None or fn in seen or depth > 6:
+        return out
+    seen = seen | {fn}
+    for e in write_events(hfn):
+        e2 = dict(e)
+        e2['conds'] = list(conds) + list(e['conds'])
+        e2['fn'] = fn
+        if e['kind'] == 'call' and e.get('def') in facts.hir:
+            sub = flat_write_events(facts, e['def'], e2['conds'], seen, depth + 1)
+            if sub:
+                out.extend(sub)
+                continue
+        out.append(e2)
+    return out
+
+
+def event_text(e):
+    if e['kind'] == 'fmt':
+        return ''.join(p[1] if p[0] == 'lit' else '\x00' for p in e['pieces'])
+    if e['kind'] == 'bytes':
+        b = lit_bytes(e['e'])
+        return b.decode('utf-8', 'replace') if b is not None else None
     return None
